@@ -33,6 +33,12 @@ def gen_behaviour(r, kind, hang=2.0):
         return {"sleep": hang, "exit": 0, "on_term": "die"}, "timeout"
     if kind == "leak":
         return {"sleep": dur, "exit": 0, "child": {"for": 0.5, "hold": ["stdout"]}}, "leak"
+    if kind == "leakfail":
+        # exits with a failure code AND a descendant keeps its output open past the leak timeout: a failure
+        return {"sleep": dur, "exit": r.choice([1, 3, 101]), "child": {"for": 0.5, "hold": ["stdout"]}}, "fail"
+    if kind == "daemon":
+        # leaves a descendant behind that has closed stdout and stderr: nothing of the test's is held open -- a pass
+        return {"sleep": dur, "exit": 0, "child": {"for": 0.6, "hold": []}}, "pass"
     raise ValueError(kind)
 
 
@@ -48,7 +54,8 @@ def gen_scenario(r, n_tests=None, allow_signal=True, allow_hang=True):
     for i, nm in enumerate(names):
         b = r.choice(BINS)
         ignored = r.random() < 0.12
-        mode = r.choices(["pass", "fail", "flaky", "signal", "hang", "leak"], [8, 3, 3, 1, 1 if allow_hang else 0, 1])[0]
+        mode = r.choices(["pass", "fail", "flaky", "signal", "hang", "leak", "leakfail", "daemon"],
+                         [8, 3, 3, 1, 1 if allow_hang else 0, 1, 0.6, 0.6])[0]
         atts, exp = [], []
         if mode == "flaky":
             k = r.randint(1, 2)
@@ -976,6 +983,28 @@ def directed(prop):
             out.append(dict(tests=[], retries=0, delay_ms=0, backoff="fixed", failfast="noff", threads=2,
                             filter=None, run_ignored="default", sigint_at=None, priorities=None,
                             groups=None, no_tests=pol, no_tests_via=via, no_binaries=nob))
+    if prop in ("C01", "C03"):
+        # a failing exit code together with leaked handles is a failure (exit status 100); a descendant that holds
+        # nothing of the test's open is no leak -- under split and under combined capture, with sibling tests being
+        # spawned all the while
+        for fmt in (None, "libtest-json"):
+            tests = [dict(bin="alpha::t1", name="t00_a", ignored=False,
+                          attempts=[{"sleep": 0.05, "exit": 3, "child": {"for": 0.5, "hold": ["stdout"]}}],
+                          expect=["fail"], mode="leakfail"),
+                     dict(bin="beta::t1", name="t01_b", ignored=False,
+                          attempts=[{"sleep": 0.05, "exit": 0, "child": {"for": 0.7, "hold": []}}],
+                          expect=["pass"], mode="daemon"),
+                     dict(bin="alpha::t2", name="t02_c", ignored=False,
+                          attempts=[{"sleep": 0.05, "exit": 0, "child": {"for": 0.5, "hold": ["stdout"]}}],
+                          expect=["leak"], mode="leak")]
+            tests += [dict(bin=b, name=f"t{i:02d}_a", ignored=False, attempts=[{"sleep": 0.02 * (i % 5), "exit": 0}],
+                           expect=["pass"], mode="pass")
+                      for i, b in enumerate(["alpha::t1", "beta::t1", "alpha::t2", "beta::t2"] * 4, start=3)]
+            sc_ = dict(tests=tests, retries=0, delay_ms=0, backoff="fixed", failfast="noff", threads=6, filter=None,
+                       run_ignored="default", sigint_at=None, priorities=None, groups=None)
+            if fmt:
+                sc_["message_format"] = fmt
+            out.append(sc_)
     if prop in ("C01", "C03", "C17"):
         # terminated by nextest at its deadline, exits with status 0 within the grace period: the attempt
         # timed out, the run failed (exit status 100)
